@@ -18,7 +18,7 @@ RULE = ('seeded histories over a pool of aliased RDMs objects: producers (indexi
         'bystander comparison after an op on an object with a live relative; distinct = distinct (op, relation) signatures.')
 ASSUMPTIONS = ['fingerprint = array bytes + normalised descriptor values without the library-managed index entries (DESIGN '
                'Appendix E); container type of a descriptor (list vs ndarray) is not part of the value']
-BUDGET = {'quick': {'runs': 2500, 'cap_s': 30, 'wall_s': 100, 'chunk': 40},
+BUDGET = {'quick': {'runs': 5000, 'cap_s': 30, 'wall_s': 100, 'chunk': 40},
           'thorough': {'runs': 150000, 'cap_s': 60, 'wall_s': 1500, 'chunk': 250}}
 
 PROD_EXTRA = ['rank_transform', 'rank_transform_twice', 'sqrt_transform', 'positive_transform', 'minmax_transform',
